@@ -13,6 +13,7 @@ SCEN = {  # the harness scenarios as histories of the Stop model
     "concurrent-admin": "p_admit 0 ++ p_admit 1 ++ [LApi AOpen; LNewStop; LStop 0; LApi AKeys; LStop 0; LApi AUpdate; LApi ASend; LNewStop; LStop 1; LStop 1; LApi AChan]",
     "simultaneous-stops": "[LNewStop; LNewStop; LNewStop; LNewStop; LStop 0; LStop 1; LStop 2; LStop 3; LStop 1; LStop 0; LStop 3; LStop 2]",
     "rejected-handshakes-then-stop": "[LNewHs; LNewHs; LNewHs; LHs 0 true; LHs 0 true; LHs 0 true; LHs 1 true; LHs 1 true; LHs 1 true; LHs 2 true; LHs 2 true; LHs 2 true; LHs 0 false; LHs 1 true; LHs 2 false; LNewStop]",
+    "peers-still-connecting-at-stop": "[LNewHs; LNewHs; LNewStop]",
     "write-timed-out-before-stop": "p_admit 0 ++ [LWpErr 0; LNewStop]",
     "peers-closed-first": "p_admit 0 ++ p_admit 1 ++ [LSockDie 0; LRp 0; LWpCwp 0; LSockDie 1; LNewStop]",
 }
